@@ -3,11 +3,331 @@
 package main
 
 import (
+	"bufio"
+	"context"
 	"encoding/json"
 	"math/rand"
+	"os"
+	"sort"
+	"strconv"
+	"sync"
 	"testing"
+	"time"
 )
 
+// Timer conformance driver for cmd/mcrew/timers.go (C17).  Every Add carries a token (the
+// operation's index) in its message, so a firing identifies the timer instance.  Gate
+// schedules exported by TLC (spec/Timers.tla) are replayed by holding each timer goroutine
+// at the verif-tag hook points; requests are also issued from inside the handler of a
+// firing message; free-running stress completes the picture.
+
+const shortDelay = 30 * time.Millisecond
+const longDelay = time.Hour
+
+type tmInst struct {
+	arrived chan string
+	release chan bool
+}
+
+type tmHarness struct {
+	sync.Mutex
+	rec     *recorder
+	ts      *Timers
+	inst    map[*TimerEntry]int
+	ctl     map[int]*tmInst
+	at      map[int]time.Time
+	n       int
+	freeRun bool
+	opn     int
+	handler map[int][][]string // token -> requests issued from inside the handler of that firing
+}
+
+func newTmHarness(gated bool) *tmHarness {
+	h := &tmHarness{rec: &recorder{t0: time.Now()}, inst: map[*TimerEntry]int{}, ctl: map[int]*tmInst{}, at: map[int]time.Time{}, handler: map[int][][]string{}, freeRun: !gated}
+	h.ts = NewTimers(func(ctx context.Context, msg interface{}) error {
+		m, _ := msg.(map[string]interface{})
+		tok, _ := m["token"].(int)
+		h.rec.add(vO{"ev": "fire", "token": tok, "id": m["id"]})
+		for _, req := range h.handler[tok] {
+			h.request(ctx, req[0], req[1], req[2] == "short")
+		}
+		return nil
+	})
+	verifHook = func(point string, args ...interface{}) {
+		switch point {
+		case "timer-added":
+			h.Lock()
+			h.n++
+			te := args[1].(*TimerEntry)
+			h.inst[te] = h.n
+			h.at[h.n] = te.At
+			h.ctl[h.n] = &tmInst{arrived: make(chan string, 1), release: make(chan bool, 1)}
+			h.Unlock()
+		case "timer-removed":
+		case "timer-wait", "timer-due", "timer-emitted", "timer-cleaned", "timer-cancel-seen", "timer-abandoned":
+			h.Lock()
+			u := h.inst[args[1].(*TimerEntry)]
+			c := h.ctl[u]
+			free := h.freeRun
+			h.Unlock()
+			h.rec.add(vO{"ev": "hook", "point": point, "u": u})
+			if free || c == nil {
+				return
+			}
+			c.arrived <- point
+			<-c.release
+		}
+	}
+	return h
+}
+
+func (h *tmHarness) request(ctx context.Context, kind, id string, short bool) string {
+	h.Lock()
+	h.opn++
+	op := h.opn
+	h.Unlock()
+	d := longDelay
+	if short {
+		d = shortDelay
+	}
+	h.rec.add(vO{"ev": "call", "op": op, "kind": kind, "id": id, "d": int(d / time.Millisecond)})
+	var err error
+	if kind == "add" {
+		err = h.ts.Add(ctx, id, map[string]interface{}{"token": op, "id": id}, d)
+	} else {
+		err = h.ts.Rem(ctx, id)
+	}
+	res := classifyErr(err)
+	h.rec.add(vO{"ev": "ret", "op": op, "res": res})
+	return res
+}
+
+func (h *tmHarness) pendingIds() vT {
+	h.ts.Lock()
+	ids := []string{}
+	for id := range h.ts.timers {
+		ids = append(ids, id)
+	}
+	h.ts.Unlock()
+	sort.Strings(ids)
+	out := vT{}
+	for _, id := range ids {
+		out = append(out, id)
+	}
+	return out
+}
+
+// finish lets everything run freely, waits long enough for every short timer, and snapshots.
+func (h *tmHarness) finish(id int, kind string, raw interface{}, realised bool) vO {
+	h.Lock()
+	h.freeRun = true
+	for _, c := range h.ctl {
+		select {
+		case c.release <- true:
+		default:
+		}
+	}
+	h.Unlock()
+	time.Sleep(shortDelay*2 + 40*time.Millisecond)
+	// drain gates of goroutines that were parked while we slept
+	h.Lock()
+	for _, c := range h.ctl {
+		select {
+		case <-c.arrived:
+			c.release <- true
+		default:
+		}
+	}
+	h.Unlock()
+	time.Sleep(20 * time.Millisecond)
+	h.rec.add(vO{"ev": "snap", "pending": h.pendingIds()})
+	h.ts.Shutdown()
+	verifHook = nil
+	js, _ := json.Marshal(raw)
+	h.rec.Lock()
+	evs := h.rec.events
+	h.rec.Unlock()
+	return vO{"id": id, "kind": kind, "events": evs, "realised": realised, "outcome": "returned", "raw": string(js),
+		"short": int(shortDelay / time.Millisecond), "long": int(longDelay / time.Millisecond)}
+}
+
+type tmSchedule struct {
+	Sched [][]interface{} `json:"sched"`
+}
+
+func replayTimerSchedule(id int, sc *tmSchedule) vO {
+	ctx, cancel := context.WithCancel(context.Background())
+	defer cancel()
+	h := newTmHarness(true)
+	realised := true
+	waitFor := func(u int, want ...string) bool {
+		h.Lock()
+		c := h.ctl[u]
+		h.Unlock()
+		if c == nil {
+			return false
+		}
+		select {
+		case got := <-c.arrived:
+			for _, w := range want {
+				if got == w {
+					return true
+				}
+			}
+			// some other point: leave the goroutine parked there
+			return false
+		case <-time.After(80 * time.Millisecond):
+			return false
+		}
+	}
+	release := func(u int) {
+		h.Lock()
+		c := h.ctl[u]
+		h.Unlock()
+		if c != nil {
+			select {
+			case c.release <- true:
+			default:
+			}
+		}
+	}
+	parked := map[int]bool{}
+	for _, st := range sc.Sched {
+		kind := st[0].(string)
+		x := int(st[1].(float64))
+		switch kind {
+		case "add":
+			before := h.n
+			if h.request(ctx, "add", "t"+strconv.Itoa(x), true) == "ok" {
+				// the new goroutine parks at its pre-select gate
+				if waitFor(before+1, "timer-wait") {
+					parked[before+1] = true
+				} else {
+					realised = false
+				}
+			}
+		case "rem":
+			h.request(ctx, "rem", "t"+strconv.Itoa(x), true)
+		case "tick":
+			h.Lock()
+			at, have := h.at[x]
+			h.Unlock()
+			if !have {
+				realised = false
+				break
+			}
+			if d := time.Until(at); d > 0 {
+				time.Sleep(d)
+			}
+			time.Sleep(3 * time.Millisecond)
+		case "due":
+			release(x)
+			if !waitFor(x, "timer-due") {
+				realised = false
+			}
+		case "cancel-seen":
+			release(x)
+			if !waitFor(x, "timer-cancel-seen") {
+				realised = false
+			}
+		case "emitted":
+			release(x)
+			if !waitFor(x, "timer-emitted") {
+				realised = false
+			}
+		case "cleaned":
+			release(x)
+			if !waitFor(x, "timer-cleaned") {
+				realised = false
+			}
+		}
+		if !realised {
+			break
+		}
+	}
+	return h.finish(id, "timer-sched", sc, realised)
+}
+
+// handlerScenario: requests issued from inside the handler of the firing message.
+func handlerScenario(id int, rng *rand.Rand) vO {
+	ctx, cancel := context.WithCancel(context.Background())
+	defer cancel()
+	h := newTmHarness(false)
+	plans := [][][]string{
+		{{"add", "t1", "long"}},
+		{{"add", "t1", "short"}},
+		{{"rem", "t1", ""}, {"add", "t1", "long"}},
+		{{"rem", "t1", ""}, {"add", "t1", "short"}},
+		{{"add", "t2", "short"}, {"add", "t1", "long"}},
+		{{"rem", "t1", ""}},
+	}
+	plan := plans[rng.Intn(len(plans))]
+	h.handler[1] = plan // token 1 = the first request below
+	h.request(ctx, "add", "t1", true)
+	after := [][]string{}
+	time.Sleep(shortDelay + 25*time.Millisecond)
+	// after the firing: the id must be free, and a timer re-created under it must be cancellable
+	for _, r := range [][]string{{"add", "t1", "long"}, {"rem", "t1", ""}, {"add", "t1", "short"}}[:1+rng.Intn(3)] {
+		h.request(ctx, r[0], r[1], r[2] == "short")
+		after = append(after, r)
+	}
+	return h.finish(id, "timer-handler", vO{"handler": plan, "after": after}, true)
+}
+
+// stress: free-running random requests over two ids with short and long delays.
+func timerStress(id int, rng *rand.Rand) vO {
+	ctx, cancel := context.WithCancel(context.Background())
+	defer cancel()
+	h := newTmHarness(false)
+	plan := [][]string{}
+	for i, n := 0, 4+rng.Intn(8); i < n; i++ {
+		r := []string{"add", "t" + strconv.Itoa(1+rng.Intn(2)), "short"}
+		if rng.Intn(3) == 0 {
+			r[0] = "rem"
+		}
+		if rng.Intn(4) == 0 {
+			r[2] = "long"
+		}
+		plan = append(plan, r)
+		h.request(ctx, r[0], r[1], r[2] == "short")
+		time.Sleep(time.Duration(rng.Intn(25)) * time.Millisecond)
+	}
+	return h.finish(id, "timer-stress", vO{"plan": plan}, true)
+}
+
 func timersMain(t *testing.T, enc *json.Encoder, rng *rand.Rand, n int) {
-	t.Fatal("timers driver not built yet")
+	switch os.Getenv("VERIF_TIMERS") {
+	case "sched":
+		in, err := os.Open(os.Getenv("VERIF_IN"))
+		if err != nil {
+			t.Fatal(err)
+		}
+		sc := bufio.NewScanner(in)
+		sc.Buffer(make([]byte, 1<<20), 1<<26)
+		id := 0
+		reps, _ := strconv.Atoi(os.Getenv("VERIF_REPS"))
+		if reps < 1 {
+			reps = 1
+		}
+		for sc.Scan() {
+			var s tmSchedule
+			if err := json.Unmarshal(sc.Bytes(), &s); err != nil {
+				t.Fatal(err)
+			}
+			for r := 0; r < reps; r++ {
+				id++
+				enc.Encode(replayTimerSchedule(id, &s))
+			}
+		}
+	case "handler":
+		for id := 1; id <= n; id++ {
+			enc.Encode(handlerScenario(id, rng))
+		}
+	case "stress":
+		for id := 1; id <= n; id++ {
+			enc.Encode(timerStress(id, rng))
+		}
+	default:
+		t.Fatal("VERIF_TIMERS must be sched | handler | stress")
+	}
 }
